@@ -49,6 +49,8 @@ type caseT struct {
 	// caller's context of Commit: "after" = cancelled right after Commit returns, "rpc" = while the CancelAtRPC-th ResolveLock is in flight
 	Cancel      string `json:"cancel"`
 	CancelAtRPC int    `json:"cancel_at_rpc"`
+	// [[i, class]]: the i-th Flush RPC is refused by the "store" with a key error of the class, siblings are applied
+	FlushRefuse [][]json.RawMessage `json:"flush_refuse"`
 }
 
 type flushRec struct {
@@ -75,6 +77,8 @@ type clientWrapper struct {
 	failFlushFrom int
 	cancelAt      int
 	cancelFn      context.CancelFunc
+	flushRefuse   map[int]string
+	refusedNow    []string
 }
 
 // splitAt splits the region containing key at key (no-op if key is already a region start); c.mu held
@@ -106,7 +110,24 @@ func (c *clientWrapper) SendRequest(ctx context.Context, addr string, req *tikvr
 			c.splitAt(k)
 		}
 		lost := c.failFlushFrom > 0 && c.nFlush >= c.failFlushFrom
+		refuse, refused := c.flushRefuse[c.nFlush]
+		if refused {
+			c.refusedNow = append(c.refusedNow, refuse)
+		}
 		c.mu.Unlock()
+		if refused {
+			k := fr.Mutations[0].Key
+			ke := &kvrpcpb.KeyError{}
+			switch refuse {
+			case "assertion":
+				ke.AssertionFailed = &kvrpcpb.AssertionFailed{StartTs: fr.StartTs, Key: k, Assertion: kvrpcpb.Assertion_Exist}
+			case "conflict":
+				ke.Conflict = &kvrpcpb.WriteConflict{StartTs: fr.StartTs, ConflictTs: fr.StartTs + 1, ConflictCommitTs: fr.StartTs + 2, Key: k, Primary: fr.PrimaryKey}
+			default:
+				ke.AlreadyExist = &kvrpcpb.AlreadyExist{Key: k}
+			}
+			return &tikvrpc.Response{Resp: &kvrpcpb.FlushResponse{Errors: []*kvrpcpb.KeyError{ke}}}, nil
+		}
 		if lost {
 			return &tikvrpc.Response{Resp: &kvrpcpb.FlushResponse{Errors: []*kvrpcpb.KeyError{{Abort: "injected: store lost"}}}}, nil
 		}
@@ -310,6 +331,14 @@ func runCase(c *caseT) (out obj) {
 		}
 	}
 	wrap.failFlushFrom = c.FailFlushFrom
+	wrap.flushRefuse = map[int]string{}
+	for _, e := range c.FlushRefuse {
+		var i int
+		if err := json.Unmarshal(e[0], &i); err != nil {
+			panic(fmt.Sprintf("flush_refuse index: %v", err))
+		}
+		wrap.flushRefuse[i] = rawStr(e[1])
+	}
 	defer closeLater(store)
 	_, n, err := scanLocks(store)
 	if err != nil {
@@ -423,6 +452,12 @@ func runCase(c *caseT) (out obj) {
 		default:
 			panic("unknown op " + name)
 		}
+		wrap.mu.Lock()
+		if len(wrap.refusedNow) > 0 {
+			r["refused"] = append([]string{}, wrap.refusedNow...)
+			wrap.refusedNow = nil
+		}
+		wrap.mu.Unlock()
 		results = append(results, r)
 	}
 	out["results"] = results
@@ -465,6 +500,9 @@ func runCase(c *caseT) (out obj) {
 	default:
 		panic("unknown end " + c.End)
 	}
+	wrap.mu.Lock()
+	out["end_refused"] = append([]string{}, wrap.refusedNow...)
+	wrap.mu.Unlock()
 	out["commit_ts"] = txn.CommitTS()
 	out["end_ms"] = time.Since(tEnd).Milliseconds()
 
